@@ -116,8 +116,11 @@ def gen_recipe(r):
         return ["unary", r.choice(UN_OPS), h()]
     if c < 0.63:
         return ["reduce", r.choice(RED_OPS), h(), r.choice(NAMES)]
-    if c < 0.70:
+    if c < 0.67:
         return ["subs", h(), r.choice(NAMES), r.choice([0, 1, "j", "k", "q"])]
+    if c < 0.70:
+        n1, n2 = r.sample(NAMES, 2)
+        return ["subs2", h(), [[n1, r.choice(["a", "b", 0])], [n2, r.choice(["c", "d", 1])]], r.random() < 0.5]
     if c < 0.74:
         return ["lambda", r.choice(NAMES), h()]
     if c < 0.78:
@@ -413,6 +416,12 @@ class Sim:
             a = fh(recipe[1])
             name, val = recipe[2], recipe[3]
             return (lambda: a(**{name: val})), None
+        if t == "subs2":
+            # two names at once, spelled in either keyword order: the same request
+            a = fh(recipe[1])
+            pairs = [tuple(p) for p in recipe[2]]
+            kw = dict(pairs if not recipe[3] else reversed(pairs))
+            return (lambda: a(**kw)), ("subs2", id(a), frozenset(pairs))
         if t == "lambda":
             a = fh(recipe[2])
             name = recipe[1]
